@@ -409,6 +409,8 @@ def replay_evo(rep, light=False, traces=None):
                 if light:
                     deltas = deltas[rep.variant % 3::3]
                 for dk, t, delta, normdef in deltas:
+                    if not light and dk == 'gen' and not (name == 'LanczosEvolution' and nc == 2) and t != (rep.variant + ir) % 4:
+                        continue        # all general exponents for one engine configuration, one of them for the others
                     if name == 'ArnoldiEvolution':
                         normdef = False            # documented: ArnoldiEvolution.run does not normalize by default
                     psi0 = B.vec()
@@ -930,11 +932,24 @@ def sim_cfgs(tier):
     return out
 
 
-def _job_mc(name, kw):
-    res, dump, d = tlc.mc('Krylov', hk.pl_cfg(**kw), dump=True, workers=4, max_heap='2g')
-    cases = [st['pl'] for st in tlaval.iter_dump(dump) if st['pl'].get('stage') == 'case']
+def _job_mc(name, kw, keep, seed):
+    """exhaustive run; returns (result, number of finished cases, [(index, case)] of the cases kept for the replay).
+    Only the kept states are parsed (the dump mostly consists of intermediate builder states; parsing is the slow part)."""
+    res, dump, d = tlc.mc('Krylov', hk.pl_cfg(**kw), dump=True, workers=2, max_heap='2g')
+    with open(dump) as f:
+        txt = f.read()
     shutil.rmtree(d, ignore_errors=True)
-    return res, cases
+    hdr = list(tlaval._STATE_HDR.finditer(txt))
+    rng = random.Random('%s-%d' % (name, seed))
+    n, cases = 0, []
+    for j, m in enumerate(hdr):
+        chunk = txt[m.end():hdr[j + 1].start() if j + 1 < len(hdr) else len(txt)]
+        if 'stage |-> "case"' not in chunk:
+            continue
+        n += 1
+        if rng.random() < keep:
+            cases.append((n, tlaval.parse_state(chunk.strip())['pl']))
+    return res, n, cases
 
 
 def _job_sim(name, kw, num, seed):
@@ -953,11 +968,13 @@ def gen_cases(ctx, with_cf=True):
     concurrently); returns list of (origin, case)"""
     from concurrent.futures import ThreadPoolExecutor
     jobs = []
-    with ThreadPoolExecutor(max_workers=4) as ex:
+    with ThreadPoolExecutor(max_workers=8) as ex:
         if with_cf:
             jobs.append(('cf', None, ex.submit(run_control_flow, ctx.tier)))
         for name, kw in mc_cfgs(ctx.tier):
-            jobs.append(('mc', name, ex.submit(_job_mc, name, kw)))
+            # quick: a seeded third of the exhaustive catalogues (the small deterministic ones completely); thorough: all
+            keep = 1.0 if (ctx.tier != 'quick' or name in ('ladder', 'ill')) else 0.32
+            jobs.append(('mc', name, ex.submit(_job_mc, name, kw, keep, ctx.seed)))
         for j, (name, kw, num) in enumerate(sim_cfgs(ctx.tier)):
             jobs.append(('sim', name, ex.submit(_job_sim, name, kw, num, ctx.seed * 101 + j + 1)))
         results = [(typ, name, f.result()) for typ, name, f in jobs]
@@ -967,7 +984,10 @@ def gen_cases(ctx, with_cf=True):
         if typ == 'cf':
             account_control_flow(ctx, *out)
             continue
-        res, cs = out
+        if typ == 'mc':
+            res, ntot, cs = out
+        else:
+            res, cs = out
         if typ == 'mc':
             ctx.add_mc('Krylov.planted.%s' % name, res)
         if res.violated:
@@ -976,9 +996,9 @@ def gen_cases(ctx, with_cf=True):
         if typ == 'mc':
             if not cs:
                 raise core.MachineryError('no case generated by MC config %s' % name)
-            for n, c in enumerate(cs):
-                cases.append(('mc-%s-%d' % (name, n + 1), c))
-            nmc += len(cs)
+            for n, c in cs:
+                cases.append(('mc-%s-%d' % (name, n), c))
+            nmc += ntot
         else:
             for i, c in cs:
                 cases.append(('sim-%s-%d' % (name, i), c))
@@ -1084,8 +1104,6 @@ def check(ctx):
             variant = rng.randrange(24)
             from_sim = origin.startswith('sim')
             ladder = origin.startswith('mc-ladder') or origin.startswith('mc-ill')
-            if ctx.tier == 'quick' and not from_sim and not ladder and rng.random() < 0.6:
-                continue        # quick: a seeded half of the exhaustive catalogue (thorough: all of it)
             light = not from_sim      # catalogue cases: reduced option grid; simulated cases: the full grid
             want_trace = from_sim or ladder or (j % 7 == ctx.seed % 7)
             ok = replay_case(ctx, case, origin, variant, light, traces if want_trace else None)
